@@ -451,6 +451,11 @@ func singleStoreOf(mc *ssa.MakeClosure, fv *ssa.FreeVar) ssa.Instruction {
 func (na *NilAn) factMatch(kind, d, aux string) (func(Atom) bool, func(*ssa.Function, ssa.Instruction) bool) {
 	direct, _ := na.factMatchRaw(kind, d, aux)
 	instr := func(fn *ssa.Function, i ssa.Instruction) bool {
+		if kind == "fresh" {
+			// the field is (re)written in this invocation, whatever the value
+			st, ok := i.(*ssa.Store)
+			return ok && desc(st.Addr) == d
+		}
 		if kind != "nil" {
 			return false
 		}
@@ -597,6 +602,8 @@ func (na *NilAn) factMatchRaw(kind, d, aux string) (func(Atom) bool, func(*ssa.F
 		switch kind {
 		case "nil":
 			return desc(a.V) == d && a.Want == NonNil
+		case "fresh":
+			return false
 		case "validated":
 			_, ok := callAtom(a, True, d)
 			return ok
